@@ -136,19 +136,24 @@ class ClassInfo:
         return "<Class %s>" % self.name
 
 
+def parse_module(source, relpath):
+    try:
+        tree = ast.parse(source, filename=relpath)
+    except SyntaxError as e:
+        raise AnalysisError("syntax error in %s: %s" % (relpath, e))
+    # normal form: an annotated assignment `x: T = v` is the assignment `x = v`
+    tree = _DropAnnotations().visit(tree)
+    ast.fix_missing_locations(tree)
+    return tree
+
+
 class ModuleInfo:
-    def __init__(self, name, relpath, source):
+    def __init__(self, name, relpath, source, tree=None):
         self.name = name  # dotted, e.g. flumine.order.order
         self.short = name.split(".")[-1]
         self.relpath = relpath
         self.source = source
-        try:
-            self.tree = ast.parse(source, filename=relpath)
-        except SyntaxError as e:
-            raise AnalysisError("syntax error in %s: %s" % (relpath, e))
-        # normal form: an annotated assignment `x: T = v` is the assignment `x = v`
-        self.tree = _DropAnnotations().visit(self.tree)
-        ast.fix_missing_locations(self.tree)
+        self.tree = tree if tree is not None else parse_module(source, relpath)
         from . import alpha
         self.renamed_locals = alpha.normalise_module(self.tree, relpath)
         self.functions = {}
@@ -212,6 +217,7 @@ class Program:
             raise AnalysisError("package directory not found: %s" % pkgdir)
         digest = hashlib.sha256()
         nfiles = 0
+        pending = []
         for dp, dn, fn in sorted(os.walk(pkgdir)):
             dn.sort()
             for f in sorted(fn):
@@ -228,8 +234,17 @@ class Program:
                 mod = rel[:-3].replace(os.sep, ".")
                 if mod.endswith(".__init__"):
                     mod = mod[: -len(".__init__")]
-                self.modules[mod] = ModuleInfo(mod, rel, src)
+                pending.append((mod, rel, src))
                 nfiles += 1
+        # reference-relative normal form (sa/normalise.py): helpers that did not exist when the rules were
+        # written are expanded at their call sites, new locals that only cache an attribute chain are removed
+        from . import normalise
+        trees = {rel: parse_module(src, rel) for mod, rel, src in pending}
+        self.expanded_helpers = normalise.expand_new_helpers(trees)
+        self.propagated_aliases = normalise.propagate_new_aliases(trees)
+        normalise.desugar_quantifiers(trees)
+        for mod, rel, src in pending:
+            self.modules[mod] = ModuleInfo(mod, rel, src, trees[rel])
         for rel in self.overrides:
             if not os.path.exists(os.path.join(root, rel)):
                 raise AnalysisError("override for a file that does not exist: %s" % rel)
